@@ -110,7 +110,7 @@ func genC14(t *rapid.T) *Case {
 		}
 		c.Input = BStr(b)
 	default:
-		c.Input = BStr(genSoup(t, m, &soupOpts{maxFrags: 20, attrs: []string{"style", "style", "src", "href"}}))
+		c.Input = BStr(genSoup(t, m, &soupOpts{maxFrags: 20, els: []string{"img", "video", "audio", "source", "iframe", "a"}, attrs: []string{"style", "style", "src", "src", "href"}}))
 	}
 	return c
 }
